@@ -234,7 +234,7 @@ class MetadataGenerator:
                 other_types.append(item)
 
         if int in other_types and float in other_types:
-            other_types.remove(int)
+            other_types = [item for item in other_types if item is not int]
 
         if types_to_merge:
             other_types.append(self.merge_field_sets(types_to_merge))
